@@ -66,6 +66,12 @@ def template_for(p, idx, rng=None):
             items.append(S(name))
         else:
             groups.setdefault(g, []).append(S(name))
+    if rng is not None and rng.random() < 0.5:
+        # free identifiers in the template, named like pattern variables of other rules: they must stay as they are
+        own = {n for n, g in vs}
+        for cand in rng.sample(["v1", "v2", "v3", "v4", "v5"], 2):
+            if cand not in own:
+                items.insert(1, S(cand))
     plain = [x for x in items[1:]]
     if rng is not None and len(plain) >= 2 and not groups and rng.random() < 0.15:
         return Dot(items[:-1], items[-1])        # a dotted template (a b . c)
